@@ -101,6 +101,48 @@ func runC16(c core.Case) core.Result {
 		if c.Int("sample", 0) == 1 {
 			res.Sample = map[string]any{"kind": "set", "n": len(es), "profile": profile, "user_keys": len(users), "first": es[0].Key}
 		}
+	case "movedown":
+		// a table moves down one level and meets exactly as many new entries there as stale versions
+		// are discarded on the way: the output has the size of the moving table but other content
+		base := core.WorkerScratch()
+		dir := filepath.Join(base, c.ID)
+		mustMkdir(dir)
+		defer os.RemoveAll(dir)
+		lv := originium.VerifNewLevels(dir, 1, 1+r.Intn(2), gen.BlockThresholds[r.Intn(len(gen.BlockThresholds))])
+		defer lv.Close()
+		n := 1 + r.Intn(4) // stale versions in the upper table = distinct keys in the lower table
+		var upper, lower []vEntry
+		for i := 0; i < n; i++ {
+			u := fmt.Sprintf("m%02d", 2*i)
+			upper = append(upper, vEntry{User: u, Ts: 20, Val: "new"}, vEntry{User: u, Ts: 10, Val: "old"})
+			lower = append(lower, vEntry{User: fmt.Sprintf("m%02d", 2*i+1), Ts: 5, Val: "low"})
+		}
+		upper = append(upper, vEntry{User: "m99", Ts: 20, Val: "end"})
+		sortEntries(upper)
+		sortEntries(lower)
+		ok := lv.Flush(toEntries(lower)) == nil && lv.CompactL0() && lv.CompactLN(1) // lower table -> L2
+		ok = ok && lv.Flush(toEntries(upper)) == nil && lv.CompactL0()             // upper table -> L1
+		if !ok {
+			res.Verdict = "inconclusive"
+			res.Inconcl = "could not build the two-level layout"
+			return res
+		}
+		lv.SetWatermark(20 + uint64(r.Intn(3)))
+		lens := lv.LevelLens()
+		lv.CompactLN(1)
+		m, examined := lv.FilterMisses()
+		if len(m) > 0 {
+			res.Violate("C16", "C16/table/after-movedown-compaction", "after a table of %d entries moved from L1 to L2 (levels before: %v), merging %d entries of the table below and discarding %d stale versions, the output table's filter denies %d of its %d entries, e.g. %q", len(upper), lens, len(lower), n, len(m), examined, m[0])
+		}
+		rv, _ := lv.Recover()
+		if m2, _ := rv.FilterMisses(); len(m2) > 0 && len(m) == 0 {
+			res.Violate("C16", "C16/table/after-recovery", "recovered handles deny %d entries, e.g. %q", len(m2), m2[0])
+		}
+		rv.Close()
+		res.AddObs("movedown_compactions", 1)
+		res.AddObs("table_entries_checked", int64(examined))
+		res.NonTrivial = examined >= 2
+		res.Hash = fmt.Sprintf("movedown-%d-%d", c.Seed, n)
 	case "dir":
 		base := core.WorkerScratch()
 		ls := genLayout(r, c.Str("keys", "hostile"), 8, 60)
@@ -156,9 +198,18 @@ func runC16(c core.Case) core.Result {
 				return res
 			}
 			check(lv, "after-flush")
-			if r.Intn(2) == 0 {
+			switch r.Intn(5) {
+			case 0, 1:
 				lv.CheckAndCompact()
 				check(lv, "after-compaction")
+			case 2:
+				// a table moves down one level, merged with whatever overlaps it there
+				if lv.CompactLN(1 + r.Intn(2)) {
+					check(lv, "after-compaction")
+				}
+			case 3:
+				// versions get discarded from now on: outputs shrink while other inputs add entries
+				lv.SetWatermark(lv.Watermark() + uint64(1+r.Intn(6)))
 			}
 		}
 		rv0, _ := lv.Recover()
@@ -181,9 +232,9 @@ func runC16(c core.Case) core.Result {
 }
 
 func genC16(tier string, seed int64) []core.Case {
-	nset, ndir := 300, 50
+	nset, ndir := 300, 120
 	if tier == "thorough" {
-		nset, ndir = 10000, 1000
+		nset, ndir = 10000, 3000
 	}
 	r := rand.New(rand.NewSource(seed*32452843 + 16))
 	var cs []core.Case
@@ -202,6 +253,9 @@ func genC16(tier string, seed int64) []core.Case {
 		}
 		cs = append(cs, c)
 	}
+	for i := 0; i < ndir/6; i++ {
+		cs = append(cs, core.Case{ID: fmt.Sprintf("mov%05d", i), Kind: "movedown", Seed: r.Int63()})
+	}
 	for i := 0; i < ndir; i++ {
 		c := core.Case{ID: fmt.Sprintf("dir%05d", i), Kind: "dir", Seed: r.Int63(), S: map[string]string{"keys": []string{"hostile", "windowed", "long", "binary"}[r.Intn(4)]}, N: map[string]int64{}}
 		if i == 0 {
@@ -215,7 +269,7 @@ func genC16(tier string, seed int64) []core.Case {
 func init() {
 	core.Register(&core.Check{
 		Prop: "C16", Level: "exploration",
-		Rule: "set cases: filter.Build over 1..30000 generated entries (binary, shared-prefix, hostile keys; many versions of one key), Contains(user key) asked for every entry; dir cases: 2-8 flushes into a standalone level manager, every table handle's filter asked for every entry of its table after each flush, after compactions (with and without version discarding) and after handles were rebuilt by recovery; non-trivial = set with >=100 entries and a key with >=2 versions / directory with >=100 (table, entry) pairs examined; distinct by seed+size+profile or layout hash",
+		Rule: "set cases: filter.Build over 1..30000 generated entries (binary, shared-prefix, hostile keys; many versions of one key), Contains(user key) asked for every entry; dir cases: 2-8 flushes into a standalone level manager (some tables holding keys only as tombstones), interleaved with CheckAndCompact, CompactLN and watermark raises; every table handle's filter is asked for every entry of its table after each flush, after each compaction and after handles were rebuilt by recovery (before and after the final compaction), with lookups of absent keys in between; movedown cases: a table moves from L1 to L2 and meets exactly as many new entries as stale versions are discarded (same size, other content); non-trivial = set with >=100 entries and a key with >=2 versions / directory with >=100 (table, entry) pairs examined; distinct by seed+size+profile or layout hash",
 		Gen: genC16, Run: runC16, BatchSize: 25, GoMaxProcs: 1, Parallel: 8,
 		MinNonTrivial: map[string]int{"quick": 60, "thorough": 2000},
 		Assumptions:   []string{"per-table filters are read through the verif accessor FilterMisses under the level manager's lock"},
